@@ -1238,7 +1238,8 @@ pub fn kinds(rng: &mut Rng) -> Program {
             .map(|x| (x.0, x.2))
             .collect();
         let pickv = |g: &mut G, call_ok: bool| -> (u16, bool) {
-            let v: Vec<&(u16, bool)> = via.iter().filter(|x| !call_ok || true).collect();
+            let _ = call_ok;
+            let v: Vec<&(u16, bool)> = via.iter().collect();
             **g.rng.pick(&v)
         };
         let steps: Vec<PStep> = {
@@ -1267,5 +1268,234 @@ pub fn kinds(rng: &mut Rng) -> Program {
         }
     }
     g.prog.clients[0].push(Op::Sleep(2));
+    g.prog
+}
+
+/// family "tree": actor trees up to depth 3 / 6 nodes, children under different message types, some held outside,
+/// parent termination by every cause at any time (faults are added by the "+faults" expansion)
+pub fn tree(rng: &mut Rng) -> Program {
+    let mut g = G::new(rng);
+    let n = g.rng.range(2, 6) as usize;
+    let nclients = g.rng.range(1, 2) as usize;
+    // parent[i] for i>0: a node with smaller index and depth < 2
+    let mut parent = vec![usize::MAX; n];
+    let mut depth = vec![0usize; n];
+    for i in 1..n {
+        let cands: Vec<usize> = (0..i).filter(|p| depth[*p] < 2).collect();
+        let p = *g.rng.pick(&cands);
+        parent[i] = p;
+        depth[i] = depth[p] + 1;
+    }
+    for i in 0..n {
+        let mut a = ActorDecl::plain(1 + i as u32);
+        a.mailbox = mailbox_kind(g.rng);
+        a.entry = *g.rng.pick(&[Entry::Builder, Entry::Spawn, Entry::Builder]);
+        a.holders = vec![0];
+        if nclients > 1 && g.rng.chance(1, 3) {
+            a.holders.push(1);
+        }
+        if g.rng.chance(1, 5) {
+            let d = g.dur_pos();
+            a.started = vec![SStep::Interval(d)];
+        }
+        a.aux_work = if g.rng.chance(1, 5) { 1 } else { 0 };
+        g.prog.actors.push(a);
+    }
+    g.layout(nclients);
+    // client 0 builds the tree top-down
+    let mut reg_ty = vec![2u8; n];
+    for i in 1..n {
+        let p = parent[i] as u16;
+        let ty = g.rng.below(3) as u8;
+        reg_ty[i] = ty;
+        let step = if ty == 2 { PStep::AddChild(i as u16) } else { PStep::RegisterChild(ty, i as u16) };
+        let op = if g.rng.chance(1, 2) { Op::Send { slot: p, script: vec![step], cancel: None } } else { Op::Call { slot: p, script: vec![step], cancel: None } };
+        g.prog.clients[0].push(op);
+    }
+    // barrier: make sure the registrations were handled before handles are dropped
+    for i in 0..n {
+        if (0..n).any(|c| parent[c] == i) {
+            g.prog.clients[0].push(Op::Ping { slot: i as u16, cancel: None });
+        }
+    }
+    // drop outside handles of some children
+    for i in 1..n {
+        if g.rng.chance(2, 3) {
+            g.prog.clients[0].push(Op::Drop { slot: i as u16 });
+            g.sk[0][i] = SK { hk: Hk::None, a: usize::MAX };
+        }
+    }
+    // traffic: broadcasts, messages to children still held, sleeps
+    let k = g.rng.range(1, 5);
+    for _ in 0..k {
+        match g.rng.below(5) {
+            0 | 1 => {
+                let parents: Vec<usize> = (0..n).filter(|i| (0..n).any(|c| parent[c] == *i) && g.sk[0][*i].hk == Hk::Addr).collect();
+                if !parents.is_empty() {
+                    let p = *g.rng.pick(&parents);
+                    let ty = g.rng.below(3) as u8;
+                    g.prog.clients[0].push(Op::Send { slot: p as u16, script: vec![PStep::SendToChildren(ty)], cancel: None });
+                }
+            }
+            2 => {
+                let held = g.slots_of(0, |k| k.hk == Hk::Addr);
+                if !held.is_empty() {
+                    let s = *g.rng.pick(&held);
+                    let d = g.dur();
+                    g.prog.clients[0].push(Op::Send { slot: s, script: vec![PStep::Sleep(d)], cancel: None });
+                }
+            }
+            3 => {
+                let d = g.dur();
+                g.prog.clients[0].push(Op::Sleep(d));
+            }
+            _ => {
+                let held = g.slots_of(0, |k| k.hk == Hk::Addr);
+                if !held.is_empty() {
+                    let s = *g.rng.pick(&held);
+                    g.prog.clients[0].push(Op::Ping { slot: s, cancel: None });
+                }
+            }
+        }
+    }
+    // terminate the root (or another parent) somehow
+    let parents: Vec<usize> = (0..n).filter(|i| (0..n).any(|c| parent[c] == *i) && g.sk[0][*i].hk == Hk::Addr).collect();
+    if !parents.is_empty() {
+        let p = *g.rng.pick(&parents) as u16;
+        match g.rng.below(6) {
+            0 => g.prog.clients[0].push(Op::Stop { slot: p }),
+            1 => g.prog.clients[0].push(Op::Send { slot: p, script: vec![PStep::CtxStop], cancel: None }),
+            2 => g.prog.clients[0].push(Op::Send { slot: p, script: vec![PStep::Panic], cancel: None }),
+            3 => g.prog.clients[0].push(Op::Halt { slot: p }),
+            4 => g.prog.clients[0].push(Op::Drop { slot: p }),
+            _ => {}
+        }
+    }
+    let d = g.rng.range(0, 6);
+    g.prog.clients[0].push(Op::Sleep(d));
+    if nclients > 1 {
+        let d = g.rng.range(0, 10);
+        g.prog.clients[1].push(Op::Sleep(d));
+        let held = g.slots_of(1, |k| k.hk == Hk::Addr);
+        if !held.is_empty() {
+            let s = *g.rng.pick(&held);
+            g.prog.clients[1].push(Op::Call { slot: s, script: vec![], cancel: None });
+            g.prog.clients[1].push(Op::Sleep(3));
+        }
+    }
+    g.prog
+}
+
+/// family "faults": victim with timers and a child, a bystander calling it, clients with pending ops
+pub fn faults(rng: &mut Rng) -> Program {
+    let mut g = G::new(rng);
+    // tags: 1 victim, 2 child of the victim, 3 bystander
+    let mut v = ActorDecl::plain(1);
+    v.mailbox = mailbox_kind(g.rng);
+    v.entry = *g.rng.pick(&[Entry::Builder, Entry::BuilderOwning, Entry::Spawn, Entry::SpawnOwning]);
+    v.strategy = *g.rng.pick(&[Strategy::RestartOnly, Strategy::Recreate]);
+    v.holders = vec![0, 1, 2];
+    v.owner = 1;
+    let p = g.dur_pos();
+    v.started = vec![g.rng.pick(&[SStep::Interval(p), SStep::IntervalWith(p)]).clone()];
+    if g.rng.chance(1, 2) {
+        v.started.push(SStep::DelayedExec(p + 2));
+    }
+    if g.rng.chance(1, 4) {
+        v.entry = Entry::BuilderOnStream;
+        v.strategy = Strategy::NonRestartable;
+        v.stream = Some(rand_stream(g.rng));
+    }
+    let mut c = ActorDecl::plain(2);
+    c.holders = vec![0];
+    c.entry = Entry::Builder;
+    c.mailbox = mailbox_kind(g.rng);
+    let mut b = ActorDecl::plain(3);
+    b.holders = vec![0, 2];
+    b.entry = Entry::Builder;
+    let stream = v.entry.stream();
+    g.prog.actors = vec![v, c, b];
+    g.layout(3);
+    // client 0: give the child to the victim, drop own child handle, talk to the child's parent, maybe restart
+    let c0 = &mut g.prog.clients[0];
+    c0.push(Op::Send { slot: 1, script: vec![PStep::Sleep(1)], cancel: None });
+    c0.push(Op::Call { slot: 0, script: vec![PStep::AddChild(1)], cancel: None });
+    c0.push(Op::Drop { slot: 1 });
+    if !stream && g.rng.chance(1, 2) {
+        c0.push(Op::Restart { slot: 0 });
+    }
+    let d = g.rng.range(0, 4);
+    c0.push(Op::Sleep(d));
+    c0.push(Op::Call { slot: 0, script: vec![PStep::Yield], cancel: None });
+    c0.push(Op::Query { slot: 0, running: true });
+    // client 1: operations pending on the victim while it dies
+    let c1 = &mut g.prog.clients[1];
+    let w = g.rng.range(0, 5);
+    c1.push(Op::Call { slot: 0, script: vec![PStep::Sleep(w)], cancel: None });
+    c1.push(Op::Send { slot: 0, script: vec![PStep::Yield], cancel: None });
+    c1.push(Op::Ping { slot: 0, cancel: None });
+    if g.prog.actors[0].entry.owning() {
+        c1.push(Op::Stop { slot: 0 });
+        c1.push(Op::Join { slot: 3, cancel: None });
+    } else if g.rng.chance(1, 2) {
+        c1.push(Op::Halt { slot: 0 });
+    } else {
+        c1.push(Op::Await { slot: 0, by_ref: true });
+    }
+    // client 2: the bystander calls the victim from inside a handler, then keeps answering
+    let c2 = &mut g.prog.clients[2];
+    let d = g.rng.range(0, 3);
+    c2.push(Op::Sleep(d));
+    c2.push(Op::Send { slot: 2, script: vec![PStep::CallAddr(0)], cancel: None });
+    c2.push(Op::Call { slot: 2, script: vec![], cancel: None });
+    c2.push(Op::Call { slot: 2, script: vec![PStep::CallAddr(0)], cancel: None });
+    c2.push(Op::Ping { slot: 2, cancel: None });
+    g.prog
+}
+
+/// family "svcfaults": a service instance is the victim; the registry must treat it as not running afterwards
+pub fn svcfaults(rng: &mut Rng) -> Program {
+    let mut g = G::new(rng);
+    let k = g.rng.range(1, 2) as u8;
+    let mut d1 = svc_default(1, g.rng);
+    let mut d2 = svc_default(2, g.rng);
+    for d in [&mut d1, &mut d2] {
+        if g.rng.chance(1, 2) {
+            d.started.push(SStep::Interval(2));
+        }
+    }
+    g.prog.defaults = vec![d1, d2];
+    let mut fresh = ActorDecl::plain(50);
+    fresh.k = k;
+    fresh.entry = Entry::Spawn;
+    fresh.at_setup = false;
+    g.prog.actors.push(fresh);
+    g.layout(2);
+    let base = g.sk[0].len() as u16;
+    let c = &mut g.prog.clients[0];
+    c.push(Op::FromRegistry { k }); // base
+    c.push(Op::Call { slot: base, script: vec![PStep::Yield], cancel: None });
+    c.push(Op::Send { slot: base, script: vec![PStep::Sleep(1)], cancel: None });
+    c.push(Op::Call { slot: base, script: vec![], cancel: None });
+    c.push(Op::Sleep(3));
+    match g.rng.below(3) {
+        0 => {
+            c.push(Op::FromRegistry { k }); // base+1
+            c.push(Op::Call { slot: base + 1, script: vec![], cancel: None });
+        }
+        1 => {
+            c.push(Op::TryFromRegistry { k });
+            c.push(Op::Call { slot: base + 1, script: vec![], cancel: None });
+        }
+        _ => {
+            c.push(Op::SpawnActor { decl: 0 }); // base+1
+            c.push(Op::Register { slot: base + 1 });
+            c.push(Op::Call { slot: base + 1, script: vec![], cancel: None });
+        }
+    }
+    let c1 = &mut g.prog.clients[1];
+    c1.push(Op::Sleep(1));
+    c1.push(Op::FromRegistry { k });
+    c1.push(Op::Call { slot: base, script: vec![], cancel: None });
     g.prog
 }
